@@ -11,6 +11,7 @@ from ..core import Checker
 from ..loader import AnalysisError, Func, norm, walk_expr, walk_own
 from ..prov import expand1, ELEM, call_name, expand, get_arg, is_accumulator, is_marker, scope_of
 from .transfer_common import build_model
+from .generic_lints import run_all as _lints
 
 
 class Unsupported(Exception):
@@ -84,6 +85,7 @@ def eval_set(e: ast.expr, env: Dict[str, bool]) -> bool:
 
 
 def check(ck: Checker) -> None:
+    _lints(ck, "C12.aliasing", "hashfile.status")
     prog, res = ck.prog, ck.res
     ck.decided = [
         "C12.partition: compare_status's four components are, as set algebra over the two status() answers, ok=s&d, missing=~s&~d, new=s&~d, deleted=~s&d (field order read from CompareStatusResult); the 'skip the source query' shortcut is taken only when nothing is missing in dest AND deleted was not requested",
@@ -97,6 +99,7 @@ def check(ck: Checker) -> None:
     _partition(ck)
     _status(ck)
     _fromstore(ck)
+    check_index_read_after_validation(ck, "C12.fromstore")
     _indexwrite(ck)
     _routing(ck)
 
@@ -389,6 +392,16 @@ def _routing(ck: Checker) -> None:
         o = norm(odb) if odb is not None else "?"
         i = norm(idx) if idx is not None else None
         ck.require(i == f"{o}_index", "C12.routing", cs, c, f"status({o}) uses {o}_index", f"status({o}, ...) is given index={i}: a store is answered from another store's index", construct=f"status({o}, index={i})")
+        # both queries expand directories from the same place: the caller's cache_odb, by default the source
+        from ..an import value_alts
+
+        gcs = ck.cfg(cs)
+        cn = next((x for x in gcs.nodes.values() if any(c2 is c for c2 in calls_at(x))), None)
+        co = get_arg(c, st, "cache_odb")
+        alts = [norm(a) for a in value_alts(gcs, cn, co, depth=2)] if (co is not None and cn is not None) else []
+        ck.require("src" in alts or (o == "src" and co is None), "C12.routing", cs, c, f"status({o}) loads directory listings from cache_odb, defaulting to the source store",
+                   f"status({o}, ...) gets cache_odb={alts or 'omitted'} with no default to `src`: the destination query then looks for the directory listing in the destination itself, where a new directory does not exist yet, and the listed files drop out of the destination's answer",
+                   construct=f"status({o}, cache_odb=...) / default src")
     ck.floor("C12.routing", n, 2, "status() calls in compare_status")
     tr = prog.func("hashfile.transfer", "transfer")
     for c, cals in res.calls_in(tr):
@@ -410,3 +423,38 @@ def _routing(ck: Checker) -> None:
                     src = " ".join(norm(a) for a in expand1(prog, fn, v))
                 ck.require(okr and "get_index(data.odb)" in src, "C12.routing", fn, c, f"{fname} passes the remote's index as {role}",
                            f"{fname} does not pass get_index(data.odb) as {role} (and only that)", construct=f"transfer(... {role}=...) in {fname}")
+
+
+
+def check_index_read_after_validation(ck: Checker, rule: str) -> None:
+    """status(): the remote index is read (index.intersection / membership) only at points from which the
+    validating pass over the indexed directories (_indexed_dir_hashes, which clears a stale index) can no
+    longer run - i.e. never *before* it.  A snapshot taken earlier keeps vouching for objects of an index
+    that the validation is about to discard."""
+    prog = ck.prog
+    fn = prog.func("hashfile.status", "status")
+    g = ck.cfg(fn)
+    val = prog.func("hashfile.status", "_indexed_dir_hashes")
+    vnodes = [n for n in g.nodes.values() for c in calls_at(n) if any(x.fq == val.fq for x in ck.res.resolve(fn, c))]
+    ck.floor(rule, len(vnodes), 1, "index validation calls (_indexed_dir_hashes) in status()")
+    reads = []
+    for n in g.nodes.values():
+        for c in calls_at(n):
+            if isinstance(c.func, ast.Attribute) and isinstance(c.func.value, ast.Name) and c.func.value.id == "index" and c.func.attr in ("intersection", "dir_hashes", "hashes", "__contains__", "__iter__"):
+                reads.append((n, norm(c)))
+        from ..cfg import node_exprs
+
+        for e in node_exprs(n):
+            for x in walk_expr(e):
+                if isinstance(x, ast.Compare) and any(isinstance(o, (ast.In, ast.NotIn)) for o in x.ops) and any(isinstance(cm, ast.Name) and cm.id == "index" for cm in x.comparators):
+                    reads.append((n, norm(x)))
+    ck.floor(rule, len(reads), 1, "reads of the index in status()")
+    vids = {v.id for v in vnodes}
+    for n, txt in reads:
+        if n.id in vids:
+            continue
+        r = g.reach([n.id], skip_edge=lambda a, lab, b: lab == "exc")
+        later = [v for v in vnodes if v.id in r]
+        ck.require(not later, rule, fn, n, "the index is consulted only after its directories were validated against the store",
+                   f"`{txt}` reads the index before `_indexed_dir_hashes` has validated it against the store (and cleared it when stale): objects vouched for only by the stale snapshot are reported as existing and are never sent",
+                   construct=f"{txt[:50]} / after validation")
